@@ -273,6 +273,25 @@ def need_cat(models):
     models.define_rec("cat", [("p", SEQI)], STR, body)
 
 
+def efeats(e):
+    return tm.app("efeats", FEATS, e)
+
+
+def need_catfeats(models):
+    """catfeats(P): feature table of frag(P[0]). ... .frag(P[-1]) by D-REC-ADD: each fragment's table shifted by the
+    length of what precedes it (snoc recursion, like cat)"""
+    need_cat(models)
+
+    def body(p):
+        n = tm.seqlen(p)
+        init = tm.T("seq.extract", (p, tm.I(0), tm.sub(n, 1)), p.sort)
+        return tm.ite(tm.eq(n, 0), tm.app("feats_empty", FEATS),
+                      tm.app("feats_cat", FEATS, tm.app("catfeats", FEATS, init),
+                             tm.app("feats_shift", FEATS, efeats(tm.seqnth(p, tm.sub(n, 1))), tm.slen(tm.app("cat", STR, init)))))
+
+    models.define_rec("catfeats", [("p", SEQI)], FEATS, body)
+
+
 def last_end(P, v):
     n = tm.seqlen(P)
     return tm.ite(tm.eq(n, 0), oend(v), oend(tm.seqnth(P, tm.sub(n, 1))))
@@ -337,7 +356,10 @@ class WalkLoop(LoopSpec):
         on = ex.models.text(st, st.env["overhang_next"])
         acc = ex.models.rec_text(st, st.env["assembly"])
         s, t = tm.V("s", STR), tm.V("t", INT)
+        need_catfeats(ex.models)
+        accf = ex.models.feats_term(st, st.get(st.env["assembly"], "features"))
         inv = [("accumulated-text-is-cat-of-the-path", tm.eq(acc, tm.app("cat", STR, P))),
+               ("accumulated-features-are-the-shifted-fragment-tables", tm.eq(accf, tm.app("catfeats", FEATS, P))),
                ("next-overhang-is-the-end-of-the-path", tm.eq(on, last_end(P, v)))]
         inv += chain(P, v, A0)
         inv.append(("map-is-the-initial-map-minus-the-used-overhangs",
@@ -353,7 +375,8 @@ class WalkLoop(LoopSpec):
 
     def hints(self, ex, st, ctx):
         P = st.ghost.get("path", tm.seqempty(INT))
-        out = [ex.models.unfold("cat", P)]
+        need_catfeats(ex.models)
+        out = [ex.models.unfold("cat", P), ex.models.unfold("catfeats", P)]
         if P.op == "seq.++" and len(P.args) == 2 and P.args[1].op == "seq.unit":
             out.append(snoc_fact(P.args[0], P.args[1].args[0]))
         return out
@@ -436,9 +459,14 @@ class GenerateAssembly(Contract):
         P = st.ghost.get("path")
         if P is None:
             return [("ghost-path-recorded", tm.FALSE)]
+        need_catfeats(ex.models)
         out = [("circular-record", tm.B(isinstance(result, VObj) and result.kind == "CircularRecord")),
                ("product-is-cat-of-the-walk-then-the-vector-fragment",
                 tm.eq(ex.models.rec_text(st, result), tm.concat(tm.app("cat", STR, P), frag(v)))),
+               ("product-features-are-the-fragment-tables-shifted-to-their-offsets",
+                tm.eq(ex.models.feats_term(st, st.get(result, "features")),
+                      tm.app("feats_cat", FEATS, tm.app("catfeats", FEATS, P),
+                             tm.app("feats_shift", FEATS, efeats(v), tm.slen(tm.app("cat", STR, P)))))),
                ("walk-closes-on-the-vector-upstream-overhang", tm.eq(last_end(P, v), ostart(v)))]
         out += chain(P, v, A0)
         A = map_arr(st, a["modmap"])
